@@ -19,7 +19,7 @@ ASSUMPTIONS = [
     "deterministic integration is run on models with bounded Lipschitz constants over a short horizon; an odeint failure (non-finite output) is inconclusive",
     "the stochastic part uses integer magnitudes (the property's 'exactly' needs integer state)",
 ]
-BUDGET = {"quick": (4, 60), "thorough": (16, 700)}
+BUDGET = {"quick": (4, 110), "thorough": (16, 700)}
 TECHNIQUE = "property-based testing (Hypothesis @given over transition-only models) with a conservation invariant checked symbolically, numerically, along integrated solutions and along simulated paths"
 LEVEL_TEXT = ("Exploration: conservation is an invariant; it is checked on the symbolic system, on numeric evaluations, on "
               "ODE solutions and on every step of stochastic paths of generated closed models.")
@@ -41,7 +41,7 @@ def strategy(tier):
         # compartment, nobody may appear or vanish)
         m = draw(S.event_model(transition_only=True, kinds="T", limits=draw(st.booleans())))
         su = draw(S.stochastic_setup(m))
-        algo = draw(st.sampled_from(["exact", "tau", "pre_tau", "exact-grid", "tau-grid"]))
+        algo = draw(st.sampled_from(["exact", "tau", "pre_tau", "exact-grid", "tau-grid", "tau-grid"]))
         return {"part": part, "model": m, "setup": su, "algo": algo,
                 "pre_tau": draw(st.sampled_from([0.02, 0.1, 0.5])),
                 "ngrid": draw(st.integers(3, 8))}
